@@ -39,10 +39,19 @@ pub fn gen_pattern(rng: &mut Rng, n: usize) -> String {
 }
 
 pub fn gen_len(rng: &mut Rng) -> usize {
-    match rng.below(20) {
-        0 => 1,
-        1 => 2,
-        2 => rng.range(13, 48),
+    match rng.below(40) {
+        0 | 1 => 1,
+        2 | 3 => 2,
+        4..=6 => rng.range(13, 48),
+        // beyond the small sizes: across 64, 256 and (rarely) 1024
+        7 => rng.range(49, 140),
+        8 => {
+            if rng.chance(1, 4) {
+                rng.range(900, 1100)
+            } else {
+                rng.range(200, 300)
+            }
+        }
         _ => rng.range(1, 12),
     }
 }
